@@ -267,14 +267,26 @@ func (x *progRun) fr() string {
 		hp = fnv32(hp, k)
 	}
 	hc := fnvInit
-	for _, b := range m.mapper.DumpRAM() {
+	dump := m.mapper.DumpRAM()
+	held := append([]byte(nil), dump...)
+	for _, b := range dump {
 		hc = fnv32(hc, uint32(b))
+	}
+	// the slice a caller holds must not change when another instance takes its own dump
+	stable := "stable"
+	for _, d := range x.decoys {
+		if d != nil {
+			guard(func() string { d.mapper.DumpRAM(); return "ok" })
+		}
+	}
+	if !bytes.Equal(dump, held) {
+		stable = "CHANGED-BY-ANOTHER-INSTANCE"
 	}
 	hs := fnvInit
 	for _, b := range m.serial.Bytes() {
 		hs = fnv32(hs, uint32(b))
 	}
-	return fmt.Sprintf("pix=%08x cram=%08x serial=%d:%08x samples=%d %08x %08x", hp, hc, m.serial.Len(), hs, x.nS, x.ckL, x.ckR)
+	return fmt.Sprintf("pix=%08x cram=%08x serial=%d:%08x samples=%d %08x %08x dump=%s", hp, hc, m.serial.Len(), hs, x.nS, x.ckL, x.ckR, stable)
 }
 
 func progSynth(seed uint64) []byte {
